@@ -56,6 +56,73 @@ def parse_lazy(txt):
     return out
 
 
+def model_scan(drv, data):
+    """coq/P21Scan.v scan_section on the text after DATA; -> (instances [(id, kw, refs)], abort, endsec) or None"""
+    k = data.find(b"DATA;")
+    if k < 0:
+        return None
+    body = data[k + 5:]
+    rc, mo, me = sh([drv], input=("S " + body.hex() + "\n").encode(), timeout=120)
+    insts, end = [], None
+    for l in mo.split("\n"):
+        p = l.split()
+        if p[:1] == ["I"]:
+            insts.append((int(p[1]), p[2], [int(x) for x in p[3:]]))
+        elif p[:1] == ["END"]:
+            end = dict(x.split("=") for x in p[1:])
+    if end is None:
+        return None
+    return insts, end["abort"] == "1", end["endsec"] == "1"
+
+
+def scan_disagreement(ms, rc, lz):
+    """compares the model's scan with what h_lazy printed; returns a description or None"""
+    insts, ab, endsec = ms
+    died = rc < 0 or lz["count"] is None
+    if died:
+        # a loader that dies on a damaged file is outside C10 (conforming files) and C05 (the eager reader); when the
+        # model does not predict the abort the case is only counted (histogram: loader_died_unpredicted)
+        return None if ab else "DIED"
+    if ab:
+        return "model predicts abort(), the loader finished with status %d" % rc
+    mids = [i[0] for i in insts]
+    if sorted(set(mids)) != sorted(lz["idx"]):
+        return "model finds instances %s, the loader indexes %s" % (mids[:30], sorted(lz["idx"])[:30])
+    for iid in set(mids):
+        n = mids.count(iid)
+        if lz["idx"][iid][1] != n:
+            return "model finds #%d %d time(s), the loader %d" % (iid, n, lz["idx"][iid][1])
+    for iid, kw, refs in insts:
+        if mids.count(iid) > 1:
+            continue
+        ikw = lz["idx"][iid][0]
+        if ikw != "?" and (kw if kw != "-" else "(complex)") != ikw:       # "?": section not registered, no keyword to ask for
+            return "keyword of #%d: model %s, loader %s" % (iid, kw, ikw)
+        if refs != lz["fwd"].get(iid, []):
+            return "references of #%d: model %s, loader %s" % (iid, refs, lz["fwd"].get(iid, []))
+    return None
+
+
+def mutate_bytes(r, data):
+    """one byte-level fault in the data section: what a damaged or hand-edited file looks like"""
+    k = data.find(b"DATA;") + 5
+    e = data.rfind(b"ENDSEC;")
+    if e <= k + 2:
+        return data, "none"
+    pos = r.randrange(k, e)
+    kind = r.choice(["delete", "insert", "truncate", "replace", "delete_run"])
+    ch = r.choice([b"'", b"(", b")", b"#", b"=", b"/", b";", b"*", b"/*", b"*/", b" ", b"0", b"A", b"a", b"$", b",", b"\\", b"!", b"-", b"_", b"\n"])
+    if kind == "delete":
+        return data[:pos] + data[pos + 1:], "delete@%d" % (pos - k)
+    if kind == "delete_run":
+        return data[:pos] + data[pos + r.choice([2, 3, 8]):], "delete_run@%d" % (pos - k)
+    if kind == "insert":
+        return data[:pos] + ch + data[pos:], "insert %r@%d" % (ch, pos - k)
+    if kind == "replace":
+        return data[:pos] + ch + data[pos + 1:], "replace %r@%d" % (ch, pos - k)
+    return data[:pos], "truncate@%d" % (pos - k)
+
+
 def main(tier, seed, pid):
     res = Result(pid, tier, seed)
     try:
@@ -64,8 +131,11 @@ def main(tier, seed, pid):
         res.violation("translator lost its anchor: %s" % e, {"theorem_or_correspondence": "tools/translate.py"}, found_input=False)
     pr = coq_prove(pid)
     proof_coverage(res, pr, ["Judy arrays are modelled as association lists / vectors",
-                             "the section scanner (nextInstance / seekInstanceEnd) and loadInstance are covered by the "
-                             "correspondence with the eager reader, not by theorems"])
+                             "the section scanner (readInstanceNumber / getDelimitedKeyword / seekInstanceEnd / nextInstance) is "
+                             "modelled in coq/P21Scan.v: proved for well-formed sections in any layout, compared with the loader on "
+                             "every generated file and on byte-damaged copies; stream offsets (loc.begin) are not modelled",
+                             "loadInstance (second pass of the lazy loader) is covered by the correspondence with the eager "
+                             "reader, not by theorems"])
     if pr["forbidden"]:
         res.violation("forbidden vernacular in coq/", {"forbidden": pr["forbidden"]}, found_input=False)
     try:
@@ -193,6 +263,41 @@ def main(tier, seed, pid):
                 oracle_fail += 1
                 report(what, data)
                 continue
+            # model of the scan itself (coq/P21Scan.v): every instance, its keyword and the names it mentions
+            ms = model_scan(drv, data)
+            hist["scan_compared"] = hist.get("scan_compared", 0) + 1
+            bad = "the model could not be run" if ms is None else scan_disagreement(ms, rc, lz)
+            if bad is None and not ms[2]:
+                bad = "the model does not see ENDSEC; where the instances end"
+            if bad:
+                disagreements += 1
+                report("model P21Scan.v and the lazy loader's scan disagree: " + bad, data,
+                       {"theorem_or_correspondence": "correspondence C10: coq/P21Scan.v scan_section vs sectionReader / lazyP21DataSectionReader"}, found=False)
+            # the same on damaged files: one byte-level fault each, model and loader must find the same instances (or both give up)
+            for mi in range(3 if tier == "quick" else 12):
+                mdata, mdesc = mutate_bytes(r, data)
+                fmut = os.path.join(wdir, "mut.p21")
+                open(fmut, "wb").write(mdata)
+                rcm, outm, errm = shb([hlazy, fmut, "none"], timeout=60)
+                lzm = parse_lazy(outm.decode("latin-1"))
+                msm = model_scan(drv, mdata)
+                evals += 1
+                hist["scan_mutated"] = hist.get("scan_mutated", 0) + 1
+                hist["mut_" + mdesc.split("@")[0].split(" ")[0]] = hist.get("mut_" + mdesc.split("@")[0].split(" ")[0], 0) + 1
+                bad = "the model could not be run" if msm is None else scan_disagreement(msm, rcm, lzm)
+                if msm is not None and (msm[1] or rcm < 0):
+                    hist["scan_abort"] = hist.get("scan_abort", 0) + 1
+                if bad == "DIED":
+                    hist["loader_died_unpredicted"] = hist.get("loader_died_unpredicted", 0) + 1
+                    bad = None
+                if bad:
+                    disagreements += 1
+                    os.makedirs(res.replay_dir, exist_ok=True)
+                    path = os.path.join(res.replay_dir, "%s-%d-%d-mut%d.p21" % (pid.lower(), seed, evals, mi))
+                    open(path, "wb").write(mdata)
+                    res.violation("model P21Scan.v and the lazy loader's scan disagree on a damaged file (%s): %s" % (mdesc, bad),
+                                  {"input_file": path, "replay": "%s %s none" % (hlazy, path),
+                                   "theorem_or_correspondence": "correspondence C10: coq/P21Scan.v scan_section vs sectionReader (damaged input)"}, found_input=False)
             # model
             req = "B " + " ".join("%d:%s" % (i, ",".join(str(x) for x in fwd[i])) for i in ids)
             rc2, mo, me = sh([drv], input=(req + "\n").encode(), timeout=60)
@@ -322,7 +427,9 @@ def main(tier, seed, pid):
                 "OWNER/ITEM give inverse attributes, complex instances, strings containing '#', '(' , ';', comments in half "
                 "of the files); index/tables/dependencies once, then loads in ascending, descending and random orders with "
                 "repetitions, each compared with the eager reader (C10) or with the referrers computed from the population "
-                "(C11); non-trivial = every population (>= 5 instances)" % n,
+                "(C11); C10 also runs coq/P21Scan.v (extracted) on the text of every file and of 3 (quick) / 12 (thorough) "
+                "byte-damaged copies (delete, insert, replace, truncate) and compares instances, keywords, reference lists "
+                "and abort with the loader; non-trivial = every population (>= 5 instances)" % n,
         "samples": samples or ["(none)"],
         "histogram": hist,
         "traces_validated_against_impl": evals,
